@@ -197,7 +197,17 @@ func runC11(c *Ctx) {
 	}
 	tick := []time.Duration{0, 1, time.Millisecond, time.Second, 90 * time.Minute}[g.Weighted(1, 1, 2, 5, 1)]
 	enabSet := g.Draw(4)
+	// one run in four: the wrapped core sits behind a level that enables nothing
+	// while the sampler is built and its With-child derived, and is switched to
+	// the run's levels before the first entry
+	dark := g.Chance(4)
+	if dark {
+		c.R.Probe("sampler built and child derived while the wrapped core enables nothing")
+	}
 	w.enabled = func(l zapcore.Level) bool {
+		if dark {
+			return false
+		}
 		switch enabSet {
 		case 0:
 			return true
@@ -256,6 +266,7 @@ func runC11(c *Ctx) {
 		c.R.Probe("sampler built by the deprecated NewSampler")
 	}
 	child := sampler.With([]zapcore.Field{{Key: "k", Type: zapcore.Int64Type, Integer: 1}})
+	dark = false
 	epoch := drawEpoch(g)
 	if epoch.Unix() < 1 {
 		// timestamps before 1970 are all one window to a counter whose reset
